@@ -212,7 +212,7 @@ def generate(tier):
     named = [x for x in cases if ':n' in x.key or '|n' in x.key]
     for c in named[::2]:
         from .common import localsify
-        for tr in (underscorify, rawify, lambda c_: localsify(c_, 0), lambda c_: localsify(c_, 1)):
+        for tr in (underscorify, rawify, lambda c_: localsify(c_, 0), lambda c_: localsify(c_, 1), lambda c_: localsify(c_, 2)):
             r_ = tr(c)
             if r_:
                 cases.append(r_)
